@@ -63,7 +63,7 @@ def handle (op : String) (args : List String) : Option String :=
   else if op == "c02.gen.extrude_polygon_accepts" then
     -- extrude.polygon panics for fewer than 2 path points or fewer than 3 sides, accepts everything else
     match args.mapM String.toNat? with
-    | some [pl, sd] => some (if pl < 2 ∨ sd < 3 then "rejected" else "accepted")
+    | some [pl, sd] => some (if (extrudePolygon? pl sd false []).isNone then "rejected" else "accepted")
     | _ => none
   else if op == "c02.holds.polygon_idx" then
     -- args: pathLen sides closed verts n idx… : the implementation's extrude.polygon output is the Lean
@@ -84,10 +84,10 @@ def handle (op : String) (args : List String) : Option String :=
     | "c02.gen.cylinder", some [s, t, b] => if s < 3 ∧ (t != 0 ∨ b != 0) then some "rejected" else some (genOut (cylinderVerts s (t != 0) (b != 0)) (cylinderTris s (t != 0) (b != 0)))
     | "c02.gen.cone", some [s] => if s < 3 then some "rejected" else some (genOut (coneVerts s) (coneTris s))
     | "c02.gen.extrude_shape", some [pl, sd, cl] =>
-        if pl < 2 then some "rejected" else some (genOut (extrudeShapeVerts pl sd) (extrudeShapeTris pl sd (cl != 0)))
-    | "c02.gen.extrude_line", some [n] => if n < 2 then some "rejected" else some (genOut (extrudeLineVerts n) (extrudeLineTris n))
+        some (match extrudeShape? pl sd (cl != 0) with | some (n, tris) => genOut n tris | none => "rejected")
+    | "c02.gen.extrude_line", some [n] => some (match extrudeLine? n with | some (v, tris) => genOut v tris | none => "rejected")
     | "c02.gen.screw", some [l, sg] =>
-        if l < 2 ∨ sg < 2 then some (genOut 0 []) else some (genOut (screwVerts l sg) (screwTris l sg))
+        some (genOut (screw l sg).1 (screw l sg).2)
     | "c02.gen.quad", some [] => some (genOut quadVerts quadTris)
     | "c02.gen.cube", some [] => some (genOut cubeVerts cubeTris)
     | "c02.gen.cube_unwelded", some [] => some (genOut cubeUnweldedVerts cubeUnweldedTris)
